@@ -56,6 +56,7 @@ def get_fnode(spec):
 def run_path(spec, fnode, script):
   """Execute one path; returns the Exec (obligations, alternatives)."""
   from . import sorts as _s
+  from .values import GlobalVar
   _s.USED_SORTS.clear()
   ex = Exec(spec, script)
   ex.number_loops(fnode)
@@ -75,7 +76,10 @@ def run_path(spec, fnode, script):
       raise OutsideSubset(f'{spec.target}: contract parameter {p!r} is not a parameter of the real function')
   old_env = Env(None)
   for p, s in list(spec.params) + list(spec.free):
-    v = ex.fresh(s, p)
+    gv = spec.bindings.get(p)
+    # a free variable that the sidecar also binds as a module-level GlobalVar is ONE symbol (an inlined helper reads it
+    # through the bindings, the verified function through its environment)
+    v = gv.value() if isinstance(gv, GlobalVar) and gv.sort.name == s.name else ex.fresh(s, p)
     old_env.set(p, v)
     if s is NONE and p in spec.bindings:
       env.set(p, spec.bindings[p])  # e.g. `cls` of a classmethod: the class, as bound by the sidecar
